@@ -84,8 +84,8 @@ func (s *surf) all(b []byte) {
 	s.call("DecodeType", func() { _, n, _ := spec.DecodeType(b); s.size("DecodeType", n, b) })
 	s.call("DecodeTypeSize", func() {
 		_, n, err := spec.DecodeTypeSize(b)
+		s.size("DecodeTypeSize", n, b) // also when an error is returned
 		if err == nil {
-			s.size("DecodeTypeSize", n, b)
 		}
 	})
 	s.call("DecodeBool", func() { _, n, _ := spec.DecodeBool(b); s.size("DecodeBool", n, b) })
@@ -99,8 +99,8 @@ func (s *surf) all(b []byte) {
 	s.call("DecodeFloat32", func() { _, n, _ := spec.DecodeFloat32(b); s.size("DecodeFloat32", n, b) })
 	s.call("DecodeFloat64", func() {
 		_, n, err := spec.DecodeFloat64(b)
+		s.size("DecodeFloat64", n, b) // also when an error is returned
 		if err == nil {
-			s.size("DecodeFloat64", n, b)
 		}
 	})
 	s.call("DecodeBin64", func() { _, n, _ := spec.DecodeBin64(b); s.size("DecodeBin64", n, b) })
@@ -108,15 +108,15 @@ func (s *surf) all(b []byte) {
 	s.call("DecodeBin256", func() { _, n, _ := spec.DecodeBin256(b); s.size("DecodeBin256", n, b) })
 	s.call("DecodeBytes", func() {
 		v, n, err := spec.DecodeBytes(b)
+		s.size("DecodeBytes", n, b) // also when an error is returned
 		if err == nil {
-			s.size("DecodeBytes", n, b)
 			s.within("DecodeBytes", v)
 		}
 	})
 	s.call("DecodeString", func() {
 		v, n, err := spec.DecodeString(b)
+		s.size("DecodeString", n, b) // also when an error is returned
 		if err == nil {
-			s.size("DecodeString", n, b)
 			if !insideS(b, string(v)) {
 				s.bad("DecodeString", "returned string outside the input")
 			}
@@ -124,14 +124,14 @@ func (s *surf) all(b []byte) {
 	})
 	s.call("DecodeStringClone", func() {
 		_, n, err := spec.DecodeStringClone(b)
+		s.size("DecodeStringClone", n, b) // also when an error is returned
 		if err == nil {
-			s.size("DecodeStringClone", n, b)
 		}
 	})
 	s.call("DecodeStruct", func() {
 		ds, n, err := spec.DecodeStruct(b)
+		s.size("DecodeStruct", n, b) // also when an error is returned
 		if err == nil {
-			s.size("DecodeStruct", n, b)
 			if ds < 0 || ds > n {
 				s.bad("DecodeStruct", fmt.Sprintf("dataSize=%d size=%d", ds, n))
 			}
@@ -139,14 +139,14 @@ func (s *surf) all(b []byte) {
 	})
 	s.call("generated struct Decode", func() {
 		_, _, n, err := genStructDecode(b)
+		s.size("generated struct Decode", n, b) // also when an error is returned
 		if err == nil {
-			s.size("generated struct Decode", n, b)
 		}
 	})
 	s.call("DecodeListTable", func() {
 		t, n, err := spec.DecodeListTable(b)
+		s.size("DecodeListTable", n, b) // also when an error is returned
 		if err == nil {
-			s.size("DecodeListTable", n, b)
 			for i := -1; i <= t.Len(); i++ {
 				t.Offset(i)
 			}
@@ -156,8 +156,8 @@ func (s *surf) all(b []byte) {
 	})
 	s.call("DecodeMessageTable", func() {
 		t, n, err := spec.DecodeMessageTable(b)
+		s.size("DecodeMessageTable", n, b) // also when an error is returned
 		if err == nil {
-			s.size("DecodeMessageTable", n, b)
 			for i := -1; i <= t.Len(); i++ {
 				t.OffsetByIndex(i)
 				t.Field(i)
@@ -170,8 +170,8 @@ func (s *surf) all(b []byte) {
 	})
 	s.call("ParseValue", func() {
 		v, n, err := spec.ParseValue(b)
+		s.size("ParseValue", n, b) // also when an error is returned
 		if err == nil {
-			s.size("ParseValue", n, b)
 			s.within("ParseValue", v)
 			if len(v) != n {
 				s.bad("ParseValue", fmt.Sprintf("value has %d bytes but n=%d", len(v), n))
@@ -180,15 +180,15 @@ func (s *surf) all(b []byte) {
 	})
 	s.call("ParseList", func() {
 		l, n, err := spec.ParseList(b)
+		s.size("ParseList", n, b) // also when an error is returned
 		if err == nil {
-			s.size("ParseList", n, b)
 			s.list("ParseList", l, 0)
 		}
 	})
 	s.call("ParseMessage", func() {
 		m, n, err := spec.ParseMessage(b)
+		s.size("ParseMessage", n, b) // also when an error is returned
 		if err == nil {
-			s.size("ParseMessage", n, b)
 			s.message("ParseMessage", m, 0)
 		}
 	})
@@ -218,8 +218,8 @@ func (s *surf) all(b []byte) {
 	// typed list wrappers
 	s.call("ParseValueList[int32]", func() {
 		l, n, err := spec.ParseValueList(b, spec.DecodeInt32)
+		s.size("ParseValueList", n, b) // also when an error is returned
 		if err == nil {
-			s.size("ParseValueList", n, b)
 			for i := 0; i < l.Len(); i++ {
 				l.Get(i)
 				l.GetErr(i)
@@ -240,8 +240,8 @@ func (s *surf) all(b []byte) {
 	})
 	s.call("ParseMessageList", func() {
 		l, n, err := spec.ParseMessageList(b, spec.OpenMessageErr)
+		s.size("ParseMessageList", n, b) // also when an error is returned
 		if err == nil {
-			s.size("ParseMessageList", n, b)
 			for i := 0; i < l.Len(); i++ {
 				m, err := l.GetErr(i)
 				if err == nil {
